@@ -76,7 +76,9 @@ def run(ch: Choices, opts: Dict[str, Any]) -> Dict[str, Any]:
     avoid = opts.get("avoid", set())
     trace = Trace()
     calm = ch.flag(1, 10, "calm")
-    n_apps = 1 if calm else 1 + ch.draw(3, "napps")
+    # thorough tier: half of the runs use deeper bounds (more applications, epochs and subroutines per history)
+    deep = (not calm) and opts.get("tier") == "thorough" and ch.flag(1, 2, "deep")
+    n_apps = 1 if calm else 1 + ch.draw(5 if deep else 3, "napps")
     mode = "time" if calm or ch.flag(1, 3, "mode") else "mix"
     sched = Sched(ch, trace, mode=mode, max_cost=0 if calm else 60)
     qm = TraceQMem(lambda q: 0)
@@ -106,11 +108,11 @@ def run(ch: Choices, opts: Dict[str, Any]) -> Dict[str, Any]:
 
     apps = []
     for a in range(n_apps):
-        epochs = 1 + (0 if "reinit" in avoid else ch.weighted([3, 3, 1], "epochs"))
+        epochs = 1 + (0 if "reinit" in avoid else ch.weighted([2, 2, 2, 1, 1] if deep else [3, 3, 1], "epochs"))
         ep = []
         for e in range(epochs):
             unit = 1 + ch.draw(4, "unit")
-            n_subs = 1 + ch.draw(3, "nsubs")
+            n_subs = 1 + ch.draw(8 if deep else 3, "nsubs")
             g = Gen(ch, unit, plant=ch.flag(1, 3, "plant"), weights=BIAS)
             progs = []
             for k in range(n_subs):
